@@ -16,3 +16,9 @@ claimed["C02"] = dict(
     text="For every enumerated name set and every history within the depth bound, each successful commit advanced exactly the current branch to a commit whose flattened snapshot equals the staged entries at that moment, whose only parent is the previous tip, with the configured identity and the given message; HEAD, other branches, the staging area and the working tree were unchanged; a commit of a staged difference always succeeded.",
     note="Trusted: gitfmt. Fixed clock means two identical commits coincide; the oracle accepts a pre-existing identical commit object. Tree ids are not predicted (Goit spells the directory mode 040000); snapshots are compared after flattening.",
 )
+claimed["C07"] = dict(
+    category="model_checking",
+    technique="explicit-state BFS over (HEAD snapshot, staging area) pairs with sharp sibling names (test/, test.c, test-data, test0); status probed in every state with a commit and compared with the exact set difference; every commit transition judged for refuse-iff-equal",
+    text="In every state reachable within the depth bound, the parsed 'Changes to be committed' section equals {new: I\\T, deleted: T\\I, modified: differing ids} computed from independently decoded index and HEAD tree (absent when equal); a commit with I = T is refused and creates no object and moves no branch; a commit with I != T succeeds.",
+    note="Trusted: gitfmt, the status section parser (structure only: section header and the 13-column kind field). Unborn repositories have no HEAD snapshot and are not probed here (C18/C13 own them).",
+)
